@@ -12,7 +12,8 @@ U = {'s': 10 ** 9, 'ms': 10 ** 6, 'us': 10 ** 3, 'ns': 1}
 UNITS = ['s', 'ms', 'us', 'ns']
 
 PERIODS = [(1, 's'), (1, 's'), (1, 's'), (1000, 'ms'), (500, 'ms'), (2, 's'), (100, 'ms'), (250, 'ms'), (1, 'ms'),
-           (10, 'us'), (5, 'ns'), (1000000, 'us')]
+           (10, 'us'), (5, 'ns'), (1000000, 'us'),
+           (0.5, 's'), (0.25, 's'), (2.0, 's'), (2.5, 'ms'), (500.0, 'ms')]       # periods given as Python floats
 
 
 def plain_notation():
@@ -20,7 +21,8 @@ def plain_notation():
 
 
 def tick_ns(nt):
-    return nt['period'] * U[nt['pu']]
+    # the period may be a (dyadic) float such as 0.5 or 2.0: exact as a Fraction
+    return Fraction(nt['period']) * U[nt['pu']]
 
 
 def du(nt):
@@ -134,4 +136,4 @@ def spec_config(nt):
 def notation_class(nt):
     if nt.get('style', 'plain') == 'plain' and (nt['period'], nt['pu']) == (1, 's') and not nt.get('du'):
         return 'plain'
-    return '%s/%d%s/%s' % (nt.get('style'), nt['period'], nt['pu'], nt.get('du') or '-')
+    return '%s/%s%s/%s' % (nt.get('style'), nt['period'], nt['pu'], nt.get('du') or '-')
